@@ -366,8 +366,8 @@ impl Prop for C05 {
 
     fn profiles(tier: Tier) -> Vec<Profile> {
         match tier {
-            Tier::Quick => vec![prof("exhaustive", 96), prof("graph", 64), prof("random_const", 40_000), prof("random_wild", 20_000), prof("twin", 4_000)],
-            Tier::Thorough => vec![prof("exhaustive_deep", 400), prof("graph_deep", 300), prof("random_const", 600_000), prof("random_wild", 300_000), prof("twin", 60_000)],
+            Tier::Quick => vec![prof("exhaustive", 96), prof("graph", 64), prof("random_const", 40_000), prof("random_wild", 20_000), prof("random_many", 1_500), prof("twin", 4_000)],
+            Tier::Thorough => vec![prof("exhaustive_deep", 400), prof("graph_deep", 300), prof("random_const", 600_000), prof("random_wild", 300_000), prof("random_many", 20_000), prof("twin", 60_000)],
         }
     }
 
@@ -396,6 +396,13 @@ impl Prop for C05 {
                 mp.w_signal = 2;
                 let hp = HistParams { max_calls: 120, max_batch: 8, ..HistParams::default() };
                 fw_case(1..=4, &mp, &hp, true, 24).prop_map(Case::Random).boxed()
+            }
+            "random_many" => {
+                let mut mp = MachineParams { max_states: 2, w_signal: 3, w_end: 1, ..MachineParams::default() };
+                mp.p_trans = [0.3; 13];
+                mp.p_trans[12] = 0.6;
+                let hp = HistParams { max_calls: 8, max_batch: 5, ..HistParams::default() };
+                fw_case(65..=140, &mp, &hp, true, 8).prop_map(Case::Random).boxed()
             }
             "random_wild" => {
                 let mut mp = MachineParams::default();
@@ -525,6 +532,9 @@ impl Prop for C05 {
             }
             Case::Random(fc) => {
                 let built = build_machines(&fc.machines).unwrap_or_else(|e| panic!("generator produced an invalid machine: {e}"));
+                if built.len() > 64 {
+                    obs.hit("more_than_64_machines");
+                }
                 let mut l = Lock::new(fc, built)?;
                 let mut ch = FromRng;
                 let mut any_action = false;
@@ -607,6 +617,7 @@ impl Prop for C05 {
 
     fn required_classes() -> Vec<&'static str> {
         vec![
+            "more_than_64_machines",
             "lockstep_executions",
             "graph_lockstep_executions",
             "graph_reached_depth_4_or_more",
